@@ -5,6 +5,7 @@ import (
 	"fmt"
 	"strings"
 	"testing"
+	"time"
 
 	distiller "github.com/markusmobius/go-domdistiller"
 	"golang.org/x/net/html"
@@ -27,6 +28,14 @@ func genC13(t *rapid.T) *Case {
 		p.Core = append(append([]wc{}, p.Core...), wc{"dtable", 8}, wc{"figure", 6}, wc{"img", 6})
 		g := newG(t, p)
 		c.HTML = g.page()
+		if rapid.IntRange(0, 2).Draw(t, "leadimgs") == 0 {
+			// several lead-image candidates (bare image, figure, picture) before the first text
+			lead := ""
+			for i := rapid.IntRange(2, 4).Draw(t, "nlead"); i > 0; i-- {
+				lead += g.block(g.pick("leadk", "img", "figure", "picture", "img"))
+			}
+			c.HTML = strings.Replace(c.HTML, "<body>\n", "<body>\n"+lead, 1)
+		}
 		c.Opts.URL = genPageURL(t)
 		c.Kind = "article"
 	}
@@ -114,6 +123,24 @@ func checkC13(c *Case) (*Violation, caseInfo) {
 						return viol, info
 					}
 				}
+			}
+		}
+	}
+	// ApplyForURL: the fetched address is the page URL, whatever OriginalURL the caller's options hold
+	if server, err := pageServer(); err == nil && server != nil {
+		path := "/c13/" + shortHash(c.HTML) + "/page.html"
+		srvPages.Store(path, c.HTML)
+		addr := server.URL + path
+		other := OptSpec{URL: c.Opts.URL, Algo: 1}.Build()
+		viaURL := guarded(0, func() (*distiller.Result, error) { return distiller.ApplyForURL(addr, 10*time.Second, other) })
+		_, viaReader := applyHTML(c.HTML, OptSpec{URL: addr, Algo: 1})
+		if !viaURL.Panicked && viaURL.Err == nil && viaURL.Res != nil && viaReader.Res != nil {
+			info.Classes = append(info.Classes, "applyforurl-checked")
+			if viaURL.Res.URL != addr {
+				return violationf("C13 applyforurl-result-url", "ApplyForURL(%q) with Options.OriginalURL=%q returned Result.URL=%q", addr, c.Opts.URL, viaURL.Res.URL), info
+			}
+			if a, b := canonical(viaURL.Res), canonical(viaReader.Res); a != b {
+				return violationf("C13 applyforurl-differs-from-reader fields="+diffFields(b, a), "ApplyForURL(%q) differs from distilling the same bytes with that address as page URL:\n%s", addr, diffCanon(b, a)), info
 			}
 		}
 	}
